@@ -158,6 +158,34 @@ def run(ctx):
     ctx.sample(dict(pipeline=pipes[0][0], history=hists[len(hists) // 2]), limit=1)
     ctx.extra["pipelines"] = len(pipes) - skipped; ctx.extra["chains_skipped_as_incompatible"] = skipped
     if len(pipes) - skipped < 15: raise RuntimeError("too few usable pipelines")
+    # ---- a shared prefix: environments derived from one materialize()d / cache()d / chunk()ed environment hold the SAME stored
+    #      interactions; reading one of them (completely or part-way) must leave what the others - and the stored environment
+    #      itself - yield unchanged ("reading never modifies the data held by the source")
+    B, _ = bases(tmp)
+    nshared = 0
+    for bname in ctx.pick(["linear", "logged", "lambda-sparse", "sup-seq"], sorted(B)):
+        for wrap in ("materialize", "cache"):
+            for sname in sorted(STEPS):
+                if sname in WRAPS: continue
+                try:
+                    stored = STEPS[wrap](B[bname][0]())
+                    before = [canon(i) for i in stored[0].read()]
+                    derived = STEPS[sname](stored)[0]
+                    first = [canon(i) for i in derived.read()]
+                except Exception:
+                    continue        # not a type-compatible step for this base
+                nshared += 1; ctx.case("shared|%s|%s|%s" % (bname, wrap, sname))
+                try:
+                    it = iter(derived.read()); list(itertools.islice(it, 5)); del it
+                    after = [canon(i) for i in stored[0].read()]
+                    again = [canon(i) for i in derived.read()]
+                except Exception as e:
+                    ctx.violation("shared-prefix:raises:%s" % type(e).__name__, "re-reading after a read of a derived environment raised %s: %s  base=%s|%s step=%s" % (type(e).__name__, str(e)[:120], bname, wrap, sname), dict(base=bname, wrap=wrap, step=sname)); continue
+                if after != before:
+                    ctx.violation("shared-prefix:stored-data-modified", "reading %s(...) changed what the %s()d environment it was derived from yields%s  base=%s" % (sname, wrap, _first(after, before), bname), dict(base=bname, wrap=wrap, step=sname))
+                elif again != first:
+                    ctx.violation("shared-prefix:reread-differs", "%s(...) on a %s()d environment yields another sequence on its second read%s  base=%s" % (sname, wrap, _first(again, first), bname), dict(base=bname, wrap=wrap, step=sname))
+    ctx.extra["shared_prefix_cases"] = nshared
     # save()/from_save(): the saved form read repeatedly
     from coba.environments import Environments
     for desc, factory in pipes[:ctx.pick(6, 30)] + [p for p in pipes[20:24]]:
